@@ -11,6 +11,7 @@ use alloc::string::String;
 // ---------------------------------------------------------------------------------------
 // byte-string arithmetic
 
+#[verifier::opaque]
 pub open spec fn sum(s: Seq<u8>) -> int
     decreases s.len()
 {
@@ -62,6 +63,7 @@ pub broadcast proof fn lemma_sum_add(a: Seq<u8>, b: Seq<u8>)
     ensures #[trigger] sum(a + b) == sum(a) + sum(b)
     decreases b.len()
 {
+    reveal(sum);
     if b.len() == 0 {
         assert(a + b =~= a);
     } else {
@@ -73,18 +75,20 @@ pub broadcast proof fn lemma_sum_add(a: Seq<u8>, b: Seq<u8>)
 pub broadcast proof fn lemma_sum_one(b: u8)
     ensures #[trigger] sum(seq![b]) == b as int
 {
+    reveal_with_fuel(sum, 2);
     assert(seq![b].drop_last() =~= Seq::<u8>::empty());
     assert(sum(seq![b]) == sum(seq![b].drop_last()) + seq![b].last() as int);
 }
 
 pub broadcast proof fn lemma_sum_empty()
     ensures #[trigger] sum(Seq::<u8>::empty()) == 0
-{ }
+{ reveal(sum); }
 
 pub proof fn lemma_sum_nonneg(s: Seq<u8>)
     ensures 0 <= sum(s) <= 255 * s.len()
     decreases s.len()
 {
+    reveal(sum);
     if s.len() > 0 { lemma_sum_nonneg(s.drop_last()); }
 }
 
@@ -348,7 +352,7 @@ pub fn str_split_vec<'a>(s: &'a str, c: char) -> (r: Vec<&'a str>)
 { s.split(c).collect() }
 
 #[verifier::external_body]
-pub fn str_len(s: &str) -> (r: usize) ensures r == utf8(s@).len() { s.len() }
+pub fn str_len(s: &str) -> (r: usize) ensures r == utf8(s@).len(), r <= 0x7fff_ffff_ffff_ffff { s.len() }
 
 #[verifier::external_body]
 pub fn str_chars_vec(s: &str) -> (r: Vec<char>) ensures r@ == s@ { s.chars().collect() }
@@ -460,6 +464,7 @@ pub proof fn lemma_sum_update(s: Seq<u8>, i: int, v: u8)
     ensures sum(s.update(i, v)) == sum(s) - s[i] as int + v as int
     decreases s.len()
 {
+    reveal(sum);
     if i == s.len() - 1 {
         assert(s.update(i, v).drop_last() =~= s.drop_last());
     } else {
@@ -502,3 +507,38 @@ pub proof fn lemma_sdt_fix_congr(a: Seq<u8>, b: Seq<u8>)
 pub proof fn axiom_slice_u8_len(s: &[u8])
     ensures s@.len() <= 0x7fff_ffff_ffff_ffff
 { }
+
+#[verifier::external_body]
+pub proof fn axiom_vec_u32_len(v: Vec<u32>)
+    ensures v@.len() <= 0x1fff_ffff_ffff_ffff
+{ }
+/// five accumulator updates mod 256 compose into one
+pub proof fn lemma_mod_chain5(a0: int, x1: int, x2: int, x3: int, x4: int, x5: int, a1: int, a2: int, a3: int, a4: int, a5: int)
+    requires a1 == (a0 - x1) % 256, a2 == (a1 + x2) % 256, a3 == (a2 - x3) % 256, a4 == (a3 + x4) % 256, a5 == (a4 + x5) % 256
+    ensures (a5 - (a0 - x1 + x2 - x3 + x4 + x5)) % 256 == 0
+{
+    assert((a1 - (a0 - x1)) % 256 == 0);
+    assert((a2 - (a1 + x2)) % 256 == 0);
+    assert((a3 - (a2 - x3)) % 256 == 0);
+    assert((a4 - (a3 + x4)) % 256 == 0);
+    assert((a5 - (a4 + x5)) % 256 == 0);
+    let d1 = a1 - (a0 - x1); let d2 = a2 - (a1 + x2); let d3 = a3 - (a2 - x3); let d4 = a4 - (a3 + x4); let d5 = a5 - (a4 + x5);
+    assert(a5 - (a0 - x1 + x2 - x3 + x4 + x5) == d1 + d2 + d3 + d4 + d5);
+    assert((d1 + d2) % 256 == 0);
+    assert((d1 + d2 + d3) % 256 == 0);
+    assert((d1 + d2 + d3 + d4) % 256 == 0);
+}
+/// three accumulator updates (delete old length, append new length, add entry sum)
+pub proof fn lemma_mod_chain3(a0: int, x1: int, x2: int, x3: int, a1: int, a2: int, a3: int)
+    requires a1 == (a0 - x1) % 256, a2 == (a1 + x2) % 256, a3 == (a2 + x3) % 256
+    ensures (a3 - (a0 - x1 + x2 + x3)) % 256 == 0
+{
+    let d1 = a1 - (a0 - x1); let d2 = a2 - (a1 + x2); let d3 = a3 - (a2 + x3);
+    assert(d1 % 256 == 0 && d2 % 256 == 0 && d3 % 256 == 0);
+    assert(a3 - (a0 - x1 + x2 + x3) == d1 + d2 + d3);
+    assert((d1 + d2) % 256 == 0);
+}
+
+pub proof fn lemma_sum_pair(a: u8, b: u8)
+    ensures sum(seq![a, b]) == a as int + b as int
+{ reveal_with_fuel(sum, 3); }
